@@ -170,6 +170,29 @@ theorem runStep_is_decorated_invoke (fuel : Nat) (prog : Program) (pipe : String
   ⟨fun hq => runStep_eq fuel prog pipe d kind s hk hq hin,
    fun x hq => by rw [runStep_eq_described fuel prog pipe d kind s hk, runStepDescribed_fails _ _ _ _ _ x hin hq]⟩
 
+/-- **The counters come back by identity - value AND type.** Whatever the called groups left under `i`
+    (also a value Python calls equal to the caller's item: `True` for `1`, `1.0` for `1`, `0.0` for `False`), what
+    the context holds after the call IS the caller's own item; `whileCounter` / `retryCounter` are the caller's
+    ints whatever equal-looking value (`True`, `1.0`) was left there. There is no "only if it differs" test:
+    the statement is about `Ctx.get?` returning the very `Val`, and `Val` keeps `bool` / `int` / `flt` apart. -/
+theorem call_restores_counters_by_identity (fr : Frame) (body : Body) (callee : CofCfg → Body)
+    (s s₁ : St) (c : CofCfg) (hb : body s = (s₁, .call c)) (hco : c.original.truthy = true)
+    (hki : c.key ≠ "i") (hkw : c.key ≠ "whileCounter") (hkr : c.key ≠ "retryCounter") :
+    let s' := (invokeStep fr body callee s).1
+    (∀ x y, fr.forI = some x → Ctx.get? s'.ctx "i" = some y → y = x) ∧
+    (∀ w y, fr.whileC = some w → Ctx.get? s'.ctx "whileCounter" = some y → y = .int w) ∧
+    (∀ r y, fr.retryC = some r → Ctx.get? s'.ctx "retryCounter" = some y → y = .int r) := by
+  have h := invokeStep_call_restores fr body callee s s₁ c hb hco
+  refine ⟨fun x y hx hy => ?_, fun w y hw hy => ?_, fun r y hr hy => ?_⟩
+  · have := h.2.1 x hx hki; rw [this] at hy; exact (Option.some.inj hy).symm
+  · have := h.1 w hw hkw; rw [this] at hy; exact (Option.some.inj hy).symm
+  · have := h.2.2.1 r hr hkr; rw [this] at hy; exact (Option.some.inj hy).symm
+
+/-- the values Python's `==` cannot tell apart are different values of the model. -/
+example : Val.bool true ≠ Val.int 1 ∧ Val.int 1 ≠ Val.flt 1 0 ∧ Val.bool false ≠ Val.flt 0 0 ∧
+    Val.str "" ≠ Val.int 0 ∧ Val.none ≠ Val.bool false := by
+  refine ⟨?_, ?_, ?_, ?_, ?_⟩ <;> (intro h; cases h)
+
 /-- **The write-back touches nothing else**: every context key other than the three counters and
     the call key, and every other component of the state (probe trace, pipeline stack, sleeps,
     exception ids), is exactly as the callee left it. -/
